@@ -207,14 +207,8 @@ def faults_replay(ctx, rng, pool):
         if fam == 'counter' or ctx.thorough():
             cap_pairs = len(pair) if fam == 'counter' else 2600
         else:
-            cap_pairs = {'run_local': 250, 'run_on': 60}.get(name, 0)
-            if name != 'run_local':
-                # the config download makes a mode-on run cost ~50 ms: one errno per call in the quick tier
-                keep = {}
-                for p in single:
-                    if p[0]:
-                        keep.setdefault(p[0][0][0], []).append(p)
-                single = [p for p in single if not p[0]] + [rng.choice(v) for _, v in sorted(keep.items())]
+            # the config download makes a mode-on run cost ~50 ms
+            cap_pairs = {'run_local': 500, 'run_on': 250}.get(name, 0)
         if len(pair) > cap_pairs:
             pair = rng.sample(pair, cap_pairs)
         return single + pair
@@ -227,7 +221,7 @@ def faults_replay(ctx, rng, pool):
             (cplans if fam == 'counter' else uplans).append(dict(id=pid, scn=s['name'], faults=[dict(idx=i, errno=e) for (i, e) in pl]))
     ctx.log('fault plans to replay: counter %d, upload %d' % (len(cplans), len(uplans)))
     fc = sharded(ctx, pool, './internal/counter', 'TestVerifC05Faults', {'scenarios': COUNTER_SCENARIOS, 'budget': 20000}, 'plans', cplans, 2)
-    fu = sharded(ctx, pool, './internal/upload', 'TestVerifC05Upload', {'scenarios': UPLOAD_SCENARIOS, 'budget': 200000}, 'plans', uplans, 3)
+    fu = sharded(ctx, pool, './internal/upload', 'TestVerifC05Upload', {'scenarios': UPLOAD_SCENARIOS, 'budget': 200000}, 'plans', uplans, 4)
     (crecs, out), (urecs, out2) = gather(fc), gather(fu)
     cases = {r['id']: r for r in crecs + urecs if r.get('kind') == 'case'}
     if len(cases) != len(meta):
@@ -331,19 +325,19 @@ def corrupt_replay(ctx, rng, r, pool):
         hi = [v for v in vectors if not (damage(v[0]) <= 2 or v[0]['hdr'] != 'ok' or v[0]['trunc'] != 'none')]
         slow = [v for v in hi if cyclic(v[0], v[1])]
         fast = [v for v in hi if not cyclic(v[0], v[1])]
-        sel = lo + rng.sample(fast, min(len(fast), 2500)) + rng.sample(slow, min(len(slow), 150))
+        sel = lo + rng.sample(fast, min(len(fast), 5000)) + rng.sample(slow, min(len(slow), 300))
     cases = []
     for (f, op, exp) in sel:
         c = dict(f)
         c.update(id=len(cases) + 1, op=op, rand=0)
         cases.append(c)
     nenum = len(cases)
-    for k in range(ctx.pick(1500, 20000)):
+    for k in range(ctx.pick(3000, 30000)):
         c = dict(UNDAMAGED)
         c.update(id=len(cases) + 1, op=['addE', 'addN', 'addM'][k % 3], rand=rng.randrange(1, 1 << 40))
         cases.append(c)
     ctx.log('corrupt files to replay: %d enumerated + %d random' % (nenum, len(cases) - nenum))
-    recs, out = gather(sharded(ctx, pool, './internal/counter', 'TestVerifC05Corrupt', {'budget': 3000}, 'cases', cases, ctx.pick(2, 4)))
+    recs, out = gather(sharded(ctx, pool, './internal/counter', 'TestVerifC05Corrupt', {'budget': 3000}, 'cases', cases, ctx.pick(3, 5)))
     res = {x['id']: x for x in recs if x.get('kind') == 'case'}
     if len(res) != len(cases):
         raise Infra('C05: %d results for %d corrupt files\n%s' % (len(res), len(cases), out[-2000:]))
